@@ -333,13 +333,13 @@ theorem isTitle_of_startsTilde (l : Str) (h : startsTilde l = true) : isTitle l 
 /-! ## the ~Other loop -/
 
 theorem otherLoop_body (body rest : List Str) (first last : Nat)
-    (hb : ∀ b ∈ body, startsTilde b = false) (hne : body ≠ []) (hlast : last = first + body.length) :
+    (hb : ∀ b ∈ body, isTitle b = false) (hne : body ≠ []) (hlast : last = first + body.length) :
     otherLoop last (body ++ rest) first = body.map lineStrip := by
   induction body generalizing first with
   | nil => exact absurd rfl hne
   | cons b bs ih =>
-    have hbt := hb b List.mem_cons_self
-    have hb' : ∀ x ∈ bs, startsTilde x = false := fun x hx => hb x (List.mem_cons_of_mem _ hx)
+    have hbt : startsTilde (strip b) = false := by rw [← isTitle_eq]; exact hb b List.mem_cons_self
+    have hb' : ∀ x ∈ bs, isTitle x = false := fun x hx => hb x (List.mem_cons_of_mem _ hx)
     simp only [List.cons_append, otherLoop, hbt, Bool.false_eq_true, if_false, List.map_cons]
     by_cases hbs : bs = []
     · subst hbs; simp [hlast]
@@ -348,11 +348,12 @@ theorem otherLoop_body (body rest : List Str) (first last : Nat)
       simp only [hl, Bool.false_eq_true, if_false]
       rw [ih (first + 1) hb' hbs (by simp [hlast]; omega)]
 
-/-- the ~Other loop, started at an un-indented title line, returns exactly the stripped body lines -/
+/-- the ~Other loop, started at the title line, returns exactly the stripped body lines -/
 theorem otherLoop_section (t : Str) (body rest : List Str) (first : Nat)
-    (ht : startsTilde t = true) (hb : ∀ b ∈ body, startsTilde b = false) :
+    (ht : isTitle t = true) (hb : ∀ b ∈ body, isTitle b = false) :
     otherLoop (first + body.length) (t :: body ++ rest) first = body.map lineStrip := by
-  simp only [List.cons_append, otherLoop, ht, if_true]
+  have ht' : startsTilde (strip t) = true := by rw [← isTitle_eq]; exact ht
+  simp only [List.cons_append, otherLoop, ht', if_true]
   by_cases hbs : body = []
   · subst hbs; simp
   · have : 0 < body.length := List.length_pos_iff.mpr hbs
@@ -804,9 +805,6 @@ def docSections (o : ReadOpts) : List (Str × List Str) → Nat → RState → E
     | .error e => .error e
     | .ok st' => docSections o rest (n + 1 + tb.2.length) st'
 
-/-- titles are not indented (the ~Other loop tests the raw line) -/
-def NoIndent (secs : List (Str × List Str)) : Prop := ∀ tb ∈ secs, startsTilde tb.1 = true
-
 theorem flat_head_title (o : ReadOpts) (p : Parser) (rest : List (Str × List Str)) (h : WellFormed rest) :
     flat rest = [] ∨ ∃ t r, flat rest = t :: r ∧ lineRes o p t = .title := by
   cases rest with
@@ -818,7 +816,7 @@ theorem flat_head_title (o : ReadOpts) (p : Parser) (rest : List (Str × List St
 
 theorem processSection_doc (o : ReadOpts) (lines : List Str) (n : Nat) (tb : Str × List Str)
     (rest : List (Str × List Str)) (st : RState)
-    (hl : lines.drop n = tb.1 :: tb.2 ++ flat rest) (hw : WellFormed (tb :: rest)) (hi : startsTilde tb.1 = true) :
+    (hl : lines.drop n = tb.1 :: tb.2 ++ flat rest) (hw : WellFormed (tb :: rest)) :
     processSection o lines (n, n + tb.2.length, sline tb.1) st = docSection o n tb st := by
   obtain ⟨t, b⟩ := tb
   have hb : ∀ x ∈ b, isTitle x = false := (hw (t, b) List.mem_cons_self).2
@@ -840,17 +838,14 @@ theorem processSection_doc (o : ReadOpts) (lines : List Str) (n : Nat) (tb : Str
         cases bodyRun o p b n <;> rfl
   | other =>
     simp only [readOther]
-    have := otherLoop_section t b (flat rest) n hi (fun x hx => by
-      cases h : startsTilde x with
-      | false => rfl
-      | true => have := isTitle_of_startsTilde x h; rw [hb x hx] at this; cases this)
+    have := otherLoop_section t b (flat rest) n (hw (t, b) List.mem_cons_self).1 hb
     simp only [List.cons_append] at this
     rw [this]
   | data => rfl
   | las3data => rfl
 
 theorem processSections_doc (o : ReadOpts) (lines : List Str) (secs : List (Str × List Str)) (n : Nat) (st : RState)
-    (hl : lines.drop n = flat secs) (hw : WellFormed secs) (hi : NoIndent secs) :
+    (hl : lines.drop n = flat secs) (hw : WellFormed secs) :
     processSections o lines (docWindows secs n) st = docSections o secs n st := by
   induction secs generalizing n st with
   | nil => rfl
@@ -858,7 +853,7 @@ theorem processSections_doc (o : ReadOpts) (lines : List Str) (secs : List (Str 
     obtain ⟨t, b⟩ := tb
     simp only [docWindows, processSections, docSections]
     have hl' : lines.drop n = (t, b).1 :: (t, b).2 ++ flat rest := by simpa [flat] using hl
-    rw [processSection_doc o lines n (t, b) rest st hl' hw (hi (t, b) List.mem_cons_self)]
+    rw [processSection_doc o lines n (t, b) rest st hl' hw]
     cases docSection o n (t, b) st with
     | error e => rfl
     | ok st' =>
@@ -868,7 +863,6 @@ theorem processSections_doc (o : ReadOpts) (lines : List Str) (secs : List (Str 
         rw [show n + 1 + b.length = n + (1 + b.length) by omega, this, hl]
         simp [flat, Nat.add_comm 1 b.length]
       · exact fun x hx => hw x (List.mem_cons_of_mem _ hx)
-      · exact fun x hx => hi x (List.mem_cons_of_mem _ hx)
 
 
 /-! ## the effect of a section that is not a ~V section -/
